@@ -768,9 +768,23 @@ Lemma wf0_alloc_chan o : wf0 o -> wf0 (alloc_chan o).
 Proof.
   intros H. apply wf0_grow with (o := o) (l := [{| nk := NPlain; waiting := []; trig := false |}]); auto; try reflexivity; repeat constructor.
 Qed.
+Lemma alloc_static_res_frame rs : forall i o,
+  notifs (alloc_static_res rs i o) = notifs o /\ flags (alloc_static_res rs i o) = flags o /\
+  tasks (alloc_static_res rs i o) = tasks o /\ tnames (alloc_static_res rs i o) = tnames o.
+Proof.
+  induction rs as [|[cap c] r IH]; cbn; intros i o; [auto|].
+  destruct cap;
+    match goal with |- context [alloc_static_res r (S i) ?x] => destruct (IH (S i) x) as (A & B & C & D) end;
+    rewrite A, B, C, D; cbn; auto.
+Qed.
+Lemma wf0_alloc_static_res rs i o : wf0 o -> wf0 (alloc_static_res rs i o).
+Proof.
+  intros H. destruct (alloc_static_res_frame rs i o) as (A & B & C & D).
+  apply wf0_grow with (o := o) (l := []); auto. now rewrite app_nil_r.
+Qed.
 Theorem wf_init_objs s nroots : wf (init_objs s nroots).
 Proof.
-  apply wf0_wf. unfold init_objs.
+  apply wf0_wf. unfold init_objs. apply wf0_alloc_static_res.
   repeat (apply iter_inv; [first [apply wf0_alloc_chan | apply wf0_alloc_queue | apply wf0_alloc_lock]|]).
   eapply wf0_grow with (l := []); try reflexivity; auto.
   2:{ cbn. now rewrite app_nil_r. }
